@@ -889,7 +889,79 @@ def _stmt_start_before(toks, idx, lo):
     return lo
 
 
+UNITS_DIR = os.path.join(os.path.dirname(os.path.dirname(os.path.abspath(__file__))), "units")
+
+
+def expand_includes(text, depth=0):
+    """`//@include <file>` (relative to /verif/units) is replaced by the file's text."""
+    if depth > 5:
+        raise TemplateError("include depth exceeded")
+    out = []
+    for ln in text.split("\n"):
+        m = re.match(r"^\s*//@include\s+(\S+)\s*$", ln)
+        if m:
+            pth = os.path.join(UNITS_DIR, m.group(1))
+            try:
+                inc = open(pth).read()
+            except OSError as e:
+                raise TemplateError(f"include {m.group(1)}: {e}")
+            out.append(f"// ---- begin include {m.group(1)} ----")
+            out.append(expand_includes(inc, depth + 1))
+            out.append(f"// ---- end include {m.group(1)} ----")
+        else:
+            out.append(ln)
+    return "\n".join(out)
+
+
+def expand_imports(text):
+    """`//@import unit=<u> [impl="..."] fn=<name>`: the extract block of that function in unit <u>
+    is re-used here as an external_body *stub* (its contract is assumed in this unit and
+    proved in unit <u>): signature from /repo, requires/ensures from <u>, no body."""
+    out = []
+    cache = {}
+    for ln in text.split("\n"):
+        m = re.match(r"^\s*//@import\s+(.*)$", ln)
+        if not m:
+            out.append(ln); continue
+        kv = parse_kv(m.group(1))
+        u = kv.get("unit")
+        if u not in cache:
+            try:
+                t = expand_includes(open(os.path.join(UNITS_DIR, u + ".vu")).read())
+            except OSError as e:
+                raise TemplateError(f"import: {e}")
+            cache[u] = [p[1] for p in parse_template(t) if p[0] == "extract"]
+        cands = [e for e in cache[u] if e.args.get("fn") == kv.get("fn")
+                 and ("impl" not in kv or norm(e.args.get("impl", "")) == norm(kv["impl"]))]
+        if len(cands) != 1:
+            raise TemplateError(f"import unit={u} fn={kv.get('fn')}: {len(cands)} matching extract blocks")
+        e = cands[0]
+        args = dict(e.args); args["mode"] = "stub"; args["from_unit"] = u
+        if "props" in kv:
+            args["props"] = kv["props"]
+        out.append("//@extract " + " ".join(f'{k}="{v}"' for k, v in args.items()))
+        if e.ret:
+            out.append(f"//@ ret: {e.ret}")
+        if e.rename:
+            out.append(f"//@ rename: {e.rename}")
+        for (scope, old, new, expect) in e.replaces:
+            if scope in ("sigreplace", "implreplace"):
+                o = old.replace("\\", "\\\\").replace('"', '\\"'); n_ = new.replace("\\", "\\\\").replace('"', '\\"')
+                out.append(f'//@ {scope} "{o}" => "{n_}"')
+        if "R2" in e.rules:
+            out.append("//@ rules: R2")
+        for c in e.clauses:
+            if c.loop == -1:
+                lines = c.text.split("\n")
+                out.append(f"//@ {c.kind} {c.label}: {lines[0]}")
+                for l2 in lines[1:]:
+                    out.append(f"//@+ {l2}")
+        out.append("//@end")
+    return "\n".join(out)
+
+
 def build(template_text: str, repo: str, unit: str) -> Built:
+    template_text = expand_imports(expand_includes(template_text))
     parts = parse_template(template_text)
     out_lines: list[str] = []
     linemap = {}
@@ -931,10 +1003,13 @@ def build(template_text: str, repo: str, unit: str) -> Built:
                     md["label"] = mlab.group(1)
                 linemap[len(out_lines)] = md
             last = len(out_lines)
-            fn_ranges.append((first, last, meta["fn"], props, meta["src"]))
-            for c in ex.clauses:
-                clauses_out.append(dict(fn=meta["fn"], kind=c.kind, label=c.label,
-                                        loop=c.loop, text=c.text, props=props))
+            if not meta.get("stub"):
+                fn_ranges.append((first, last, meta["fn"], props, meta["src"]))
+                for c in ex.clauses:
+                    if c.kind == "loopentry":
+                        continue
+                    clauses_out.append(dict(fn=meta["fn"], kind=c.kind, label=c.label,
+                                            loop=c.loop, text=c.text, props=props))
         else:
             kind = None
             for k in ("struct", "enum", "const", "type", "static", "implblock", "trait"):
@@ -1174,7 +1249,11 @@ def _build_fn(sf: SourceFile, item: Item, impl, ex: Extract, props, rep, unit, a
     hdr = sig_text + ("\n    " + where_txt if where_txt else "")
     body_text = text_of(body_toks)
     src_line = sf.line_of(item.start)
-    lines = [f"// ---- extracted {sf.rel}:{src_line} :: {qual} ----"]
+    stub = a.get("mode") == "stub"
+    if stub:
+        body_text = "{ unimplemented!() }"
+        rep.append(("STUB", f"contract imported from unit {a.get('from_unit')} (proved there, assumed here); body not included"))
+    lines = [f"// ---- {'stub (contract of' if stub else 'extracted'} {sf.rel}:{src_line} :: {qual}{')' if stub else ''} ----"]
     if impl is not None:
         ih = text_of(toks_all[impl.start:impl.hdr_end]).strip()
         ih = re.sub(r"\s+", " ", ih)
@@ -1186,6 +1265,8 @@ def _build_fn(sf: SourceFile, item: Item, impl, ex: Extract, props, rep, unit, a
                 rep.append(("implreplace", f"{old!r} => {new!r}"))
                 ih = ih2
         lines.append(ih + " {")
+    if stub:
+        lines.append("#[verifier::external_body]")
     lines.append(hdr)
     if spec:
         lines.append(spec)
@@ -1193,7 +1274,7 @@ def _build_fn(sf: SourceFile, item: Item, impl, ex: Extract, props, rep, unit, a
     if impl is not None:
         lines.append("}")
     meta = dict(unit=unit, fn=qual, src=f"{sf.rel}:{src_line}",
-                srcspan=f"{sf.rel}:{src_line}-{sf.line_of(item.end - 1)}", sha256=sha, props=props)
+                srcspan=f"{sf.rel}:{src_line}-{sf.line_of(item.end - 1)}", sha256=sha, props=props, stub=stub)
     return "\n".join(lines), meta
 
 
@@ -1347,8 +1428,10 @@ def scan_assumptions(lines, linemap):
             if mm or "assume_specification" in sj:
                 desc = sj
                 break
+        lm = linemap.get(i + 1, {})
         res.append(dict(line=i + 1, kind=m.group(0), decl=desc[:200],
-                        in_extracted=bool(linemap.get(i + 1, {}).get("fn"))))
+                        in_extracted=bool(lm.get("fn")) and not lm.get("stub"),
+                        imported=bool(lm.get("stub"))))
     return res
 
 
